@@ -290,6 +290,20 @@ fn run_ser(act: &Value, seed: u64) -> (Value, Option<String>) {
         Ok(Err(e)) => set(&mut o, "parse", json!(err_class(&e))),
         Err(pm) => { set(&mut o, "parse", json!("panic")); panic = Some(format!("deserialize: {pm}")); }
     }
+    // the same message serialised over a buffer that held other data before (all ones, then the complement of the
+    // clean serialisation): what parses back must still be the message - nothing of the old content may survive
+    for round in 0..2 {
+        let mut dirty: Vec<u8> = if round == 0 { vec![0xFFu8; buf.len()] } else { buf.iter().map(|b| !b).collect() };
+        match util::catch(|| msg.serialize(&mut dirty)) {
+            Ok(Ok(nd)) => match util::catch(|| Message::deserialize(&dirty[..nd.min(dirty.len())])) {
+                Ok(Ok(p)) => equal = equal && p == msg,
+                Ok(Err(_)) => equal = false,
+                Err(pm) => panic = Some(format!("deserialize (dirty buffer): {pm}")),
+            },
+            Ok(Err(_)) => equal = false,
+            Err(pm) => panic = Some(format!("serialize (dirty buffer): {pm}")),
+        }
+    }
     set(&mut o, "equal", json!(equal));
     set(&mut o, "iter", json!(iter));
     set(&mut o, "reser", json!(reser));
